@@ -42,7 +42,7 @@ def distinct_world(rng, ng=None):
 	k, prefix = rng.choice([(6, 'AT'), (7, 'ACG'), (9, 'TA'), (12, 'GAT')])
 	w = W.World(k, prefix)
 	W.gen_taxonomy(rng, w, nt=rng.randint(1, 6), names='plain')
-	ng = ng or rng.randint(1, 14)
+	ng = ng or (rng.randint(1, 14) if rng.random() < 0.75 else rng.choice([17, 24, 40, 70]))   # also sets large enough for block-read / multi-chunk paths
 	nq = rng.randint(1, 4)
 	m = 10
 	B = nq * m
@@ -84,7 +84,7 @@ def check_loaded(ctx, w, db, id_attr, order, desc):
 			return
 	by_key = {g['key']: gi for gi, g in enumerate(w.genomes)}
 	qs = [np.array(q['sig'], dtype=w.dtype) for q in w.queries]
-	for chunk in (None, 1, 3):
+	for chunk in (None, 1, 3, 16, None):    # several queries on the SAME database object: the first one must not disturb the later ones
 		res = query(db, qs, QueryParams(report_closest=n + 3, chunksize=chunk))
 		for qi, item in enumerate(res.items):
 			seen = set()
